@@ -5,25 +5,34 @@ cd /verif
 out=seeded/MATRIX.txt
 [ $# -eq 0 ] && : > $out
 declare -A ARGS=( [C01]="--seeds 3000 --budget 300" [C02]="--seeds 3000 --budget 300" [C03]="--seeds 3000 --budget 300" [C04]="--seeds 3000 --budget 300"
- [C05]="--seeds 3000 --budget 300" [C08]="--seeds 6000 --budget 300" [C12]="--seeds 6000 --budget 300" [C13]="--seeds 3000 --budget 300" [C03b]="--seeds 3000 --budget 400" )
+ [C05]="--seeds 3000 --budget 300" [C08]="--seeds 6000 --budget 300" [C12]="--seeds 6000 --budget 300" [C13]="--seeds 3000 --budget 300" [C03b]="--seeds 3000 --budget 400"
+ [C01c]="--seeds 3000 --budget 300" [C03c]="--seeds 3000 --budget 300" [C04c]="--seeds 3000 --budget 300" [C05c]="--seeds 3000 --budget 300" [C12c]="--seeds 6000 --budget 300" )
+# a change seeded against one property may only be visible to the check of another one: tried when the own check stays quiet
+declare -A ALT=( [C02c]="C12 --seeds 6000 --budget 300" [C05c]="C18" [C01c]="C03 --seeds 3000 --budget 300" )
 for id in ${@:-$(ls seeded | grep '^C')}; do
   git -C /repo diff --quiet || { echo "repo dirty"; exit 2; }
   git -C /repo apply /verif/seeded/$id/patch.diff || { echo "$id: patch does not apply" | tee -a $out; continue; }
   prop=${id:0:3}
   log=$(./check $prop quick ${ARGS[$id]:-} 2>&1)
   rc=$?
+  used="$prop quick ${ARGS[$id]:-}"
+  if [ $rc -ne 1 ] && [ -n "${ALT[$id]:-}" ]; then
+    set -- ${ALT[$id]}; ap=$1; shift
+    log=$(./check $ap quick "$@" 2>&1); rc=$?
+    used="$ap quick $*"
+  fi
   git -C /repo checkout -- .
   first=$(echo "$log" | grep "class=" | head -3 | cut -c1-260)
   runs=$(echo "$log" | grep "runs in" | tail -1)
-  echo "== $id rc=$rc :: $runs" | tee -a $out
+  echo "== $id rc=$rc ($used) :: $runs" | tee -a $out
   echo "$first" | tee -a $out
-  python3 - "$id" "$rc" "$first" "${ARGS[$id]:-}" <<'PY'
+  python3 - "$id" "$rc" "$first" "$used" <<'PY'
 import json,sys,re
-i,rc,first,args=sys.argv[1:5]
+i,rc,first,used=sys.argv[1:5]
 p=f'/verif/seeded/{i}/meta.json'
 m=json.load(open(p))
 classes=re.findall(r'class=(\S+)',first)
-m['detected_by']=[{"check":f"./check {i[:3]} quick {args}".strip(),"exit":int(rc),"violation_classes":classes}] if rc=='1' else []
+m['detected_by']=[{"check":f"./check {used}".strip(),"exit":int(rc),"violation_classes":classes}] if rc=='1' else []
 json.dump(m,open(p,'w'),indent=1)
 PY
 done
